@@ -158,8 +158,8 @@ func init() {
 	// ---- canonicalizer (repo code): summarised only on ghost input (assume-guarantee with C05) ----
 	reg(repoMod+"/pkg/internal/jsoncanonicalizer.Transform", func(in *Interp, fn *ssa.Function, args []value) (value, bool) {
 		s := strOfSlice(in, args[0].(*Slice))
-		if _, conc := s.Concrete(); conc && !in.eng.summariseTransform {
-			return nil, false
+		if s.Kind == sBytes {
+			return nil, false // byte-precise input: execute the real code
 		}
 		tree, ok := in.bytesToTree(s)
 		if !ok {
